@@ -60,7 +60,7 @@ func inprocCases(c *core.Ctx) []Case {
 	for _, n := range jsonBoundarySizes {
 		add("json", n, "")
 	}
-	for i := 0; i < c.Pick(40, 1500); i++ {
+	for i := 0; i < c.Pick(40, 2500); i++ {
 		add("json", randN(), "")
 	}
 	add("json", 30, "overlimit")
@@ -69,14 +69,14 @@ func inprocCases(c *core.Ctx) []Case {
 		add("csv", n, "")
 		add("csv", n, "noheader")
 	}
-	for i := 0; i < c.Pick(40, 1200); i++ {
+	for i := 0; i < c.Pick(40, 2000); i++ {
 		v := ""
 		if rng.Intn(3) == 0 {
 			v = "noheader"
 		}
 		add("csv", randN(), v)
 	}
-	for i := 0; i < c.Pick(12, 300); i++ {
+	for i := 0; i < c.Pick(12, 500); i++ {
 		v := ""
 		if rng.Intn(3) == 0 {
 			v = "noheader"
@@ -93,7 +93,7 @@ func inprocCases(c *core.Ctx) []Case {
 		for _, n := range []int{0, 1, 2, 7, 300} {
 			add("lines", n, s)
 		}
-		for i := 0; i < c.Pick(1, 40); i++ {
+		for i := 0; i < c.Pick(1, 60); i++ {
 			add("lines", randN(), s)
 		}
 	}
@@ -106,7 +106,7 @@ func inprocCases(c *core.Ctx) []Case {
 	for _, n := range []int{0, 1, 2, 1000, 5000} {
 		add("parquet", n, "")
 	}
-	for i := 0; i < c.Pick(25, 900); i++ {
+	for i := 0; i < c.Pick(25, 1500); i++ {
 		add("parquet", randN(), "")
 	}
 	return cs
@@ -374,7 +374,7 @@ func Run(c *core.Ctx) core.FinishOpts {
 			"quoting, header on/off; lines: 8 separators, lines around the 64 KiB token limit; parquet: required/optional/repeated/LIST/group columns), each materialised with all, " +
 			"some or none of the columns; legs = in-process, child processes GOMAXPROCS {1,2,4,16} x {no delay, 5 delay seeds}, race build, CLI files, CLI stdin in chunks; " +
 			"non-trivial = at least 2 rows and 1 compared cell, counts equal and every cell compared to the end (discrepancies found are reported separately); distinct by (leg, file content hash, requested columns / chunking)",
-		Floor: c.Pick(250, 4000),
+		Floor: c.Pick(250, 5000),
 		Assumptions: []string{"ground truth = what the generator serialised; numbers are judged against strconv.ParseFloat of the literal (correct rounding)",
 			"encoding/json (strict decode of -o json), strconv, time.Parse are trusted", "parquet fixtures are written by the pinned parquet-go fork's row writer (trusted to write the levels it is given)",
 			"delays widen the explored worker schedules but do not enumerate them"},
@@ -385,7 +385,7 @@ func Run(c *core.Ctx) core.FinishOpts {
 				apply(c, runCase(c, cs, c.Scratch), "inproc")
 			}
 		}
-		for _, cs := range jsonChildCases(c, c.Pick(0, 60), true) {
+		for _, cs := range jsonChildCases(c, c.Pick(0, 100), true) {
 			if cs.ID == c.Only {
 				apply(c, runCase(c, cs, c.Scratch), "inproc")
 			}
@@ -401,6 +401,7 @@ func Run(c *core.Ctx) core.FinishOpts {
 	var mu sync.Mutex
 	results := make([]*Result, len(cases))
 	core.Parallel(len(cases), 16, func(i int) {
+		c.LogCase(cases[i].ID, cases[i].Kind, " n=", cases[i].N, " ", cases[i].Var) // JSON worker goroutines are not ours
 		r := runCase(c, cases[i], c.Scratch)
 		mu.Lock()
 		results[i] = r
@@ -414,7 +415,7 @@ func Run(c *core.Ctx) core.FinishOpts {
 	t0 = time.Now()
 	// (a2) child processes: worker counts x delays
 	var legs []childLeg
-	extra := c.Pick(0, 60)
+	extra := c.Pick(0, 100)
 	nSeeds := 5
 	for _, g := range []int{1, 2, 4, 16} {
 		legs = append(legs, childLeg{name: fmt.Sprintf("child-p%d-nodelay", g), gmp: g, par: 1 + g/8, cases: jsonChildCases(c, extra, true)})
